@@ -25,7 +25,7 @@ ASSUMPTIONS = [
     "reference grammar = DESIGN.md Appendix A (docstring grammar + the property statement): left-associative + - * /, "
     "one ^ per ExpExp and one per factor run binding to the last factor, '-' directly before a literal is part of the literal",
     "values compared exactly with Fractions at sampled assignments (non-integer exponents: positive bases, 1e-9 relative)",
-    "bounds: <= 200 tokens, nesting <= 25, literals <= 60 digits",
+    "bounds: <= 200 tokens (a dozen fixed long inputs up to 700 tokens), nesting <= 30, literals <= 60 digits",
 ]
 SHARDS = {"quick": 8, "thorough": 16}
 DEADLINE = {"quick": 50, "thorough": 420}
@@ -43,6 +43,11 @@ def REQUIRED(tier):
 
 def strings(cfg, rng):
     corp = WT.corpus()
+    from . import _rulecommon as RC
+
+    for i, s in enumerate(RC.long_texts()):
+        if cfg.mine(i):
+            yield "long", s
     for i, s in enumerate(corp):
         if cfg.mine(i):
             yield "corpus", s
@@ -100,7 +105,7 @@ def run(rec, cfg):
         rec.arm("workload:" + src)
         try:
             toks = G.ref_tokenize(s, keep_padding=False)
-            if len(toks) > 200:
+            if len(toks) > 200 and src != "long":
                 continue
             for a, b in zip(toks, toks[1:]):
                 bigrams.add((a[0], b[0]))
